@@ -1,6 +1,6 @@
 (* Model of the analytic primitive colliders of src/engine/engine_collision_primitive.c
    (mjraw_PlaneSphere / mjc_PlaneSphere, mjraw_SphereSphere / mjc_SphereSphere, mjc_PlaneCapsule,
-   mjraw_SphereCapsule / mjc_SphereCapsule, mjraw_CapsuleCapsule / mjc_CapsuleCapsule), of
+   mjraw_SphereCapsule / mjc_SphereCapsule, mjraw_CapsuleCapsule / mjc_CapsuleCapsule, mjc_PlaneCylinder), of
    mju_makeFrame (engine_util_spatial.c), of the frame assembly done by mj_narrowphase + mj_setContact
    (engine_collision_driver.c: frame[0..2] = normal, frame[3..5] = tangent, then mju_makeFrame) and of
    the analytic arm of mj_geomDistance (engine_support.c).
@@ -125,6 +125,45 @@ Definition capsuleCapsule (margin : T) (pos1 : vec3 T) (mat1 : mat3 T) (r1 len1 
         let x1b := clip ((u + mb) / ma) (- none) none in
         let c4 := ss (add3 (scl3 axis1 x1b) pos1) (sub3 pos2 axis2) in
         c1 ++ c2 ++ c3 ++ c4.
+
+(* ---- mjc_PlaneCylinder; size2 = (radius, half-height).  First column of the cylinder's xmat: its x-axis *)
+Definition xaxis (m : mat3 T) : vec3 T :=
+  let '(m0, m1, m2, m3, m4, m5, m6, m7, m8) := m in (m0, m3, m6).
+Definition planeCylinder (margin : T) (pos1 : vec3 T) (mat1 : mat3 T)
+                         (pos2 : vec3 T) (mat2 : mat3 T) (radius height : T) : list (precon T) :=
+  let normal := zaxis mat1 in
+  let axis0 := zaxis mat2 in
+  let prjaxis0 := dot3 normal axis0 in
+  (* make sure the axis points towards the plane *)
+  let flip := nzero <? prjaxis0 in
+  let axis := if flip then scl3 axis0 (- none) else axis0 in
+  let prjaxis := if flip then - prjaxis0 else prjaxis0 in
+  let dist0 := dot3 (sub3 pos2 pos1) normal in
+  (* remove the component of -normal along the axis *)
+  let vec := sub3 (scl3 axis prjaxis) normal in
+  let len_sqr := dot3 vec vec in
+  let vec := if mjMINVAL <=? len_sqr then scl3 vec (radius / nsqrt len_sqr)
+             else scl3 (xaxis mat2) radius in      (* disk parallel to plane: x-axis of the cylinder *)
+  let prjvec := dot3 vec normal in
+  let axis := scl3 axis height in
+  let prjaxis := prjaxis * height in
+  let d1 := dist0 + prjaxis + prjvec in
+  if d1 <=? margin then
+    let c1 := (d1, add3 (add3 (add3 pos2 vec) axis) (scl3 normal (- d1 * nhalf)), normal, zero3) in
+    let d2 := dist0 - prjaxis + prjvec in
+    let c2 := if d2 <=? margin
+              then [(d2, add3 (sub3 (add3 pos2 vec) axis) (scl3 normal (- d2 * nhalf)), normal, zero3)] else [] in
+    (* two more points of a triangle on the side closer to the plane *)
+    let prjvec1 := - prjvec * nhalf in
+    let d3 := dist0 + prjaxis + prjvec1 in
+    let c34 := if d3 <=? margin then
+                 let vec1 := scl3 (fst (normalize3 (cross vec axis))) (radius * nsqrt (nofZ 3) / ntwo) in
+                 let tail := fun (p : vec3 T) =>
+                   add3 (add3 (add3 p axis) (scl3 vec (- nhalf))) (scl3 normal (- d3 * nhalf)) in
+                 [(d3, tail (add3 pos2 vec1), normal, zero3); (d3, tail (sub3 pos2 vec1), normal, zero3)]
+               else [] in
+    c1 :: c2 ++ c34
+  else [].
 
 (* ---- mju_makeFrame(frame): x-axis = frame[0..2] (normal), y-axis = frame[3..5] (tangent, may be
    zero).  None models mjERROR("xaxis of contact frame undefined"). *)
